@@ -19,6 +19,29 @@ func (crsStub) Authority() string   { return "EPSG" }
 func (crsStub) Version() string     { return "0" }
 func (crsStub) Code() string        { return "28992" }
 
+// crsStubYX: a northing/easting ordered reference system (EPSG:3035 in texel's axis-order table).
+type crsStubYX struct{}
+
+func (crsStubYX) Description() string { return "synthetic, y/x ordered" }
+func (crsStubYX) Authority() string   { return "EPSG" }
+func (crsStubYX) Version() string     { return "0" }
+func (crsStubYX) Code() string        { return "3035" }
+
+// SynthYX is Synth over a reference system whose axes are ordered northing, easting: the same extent, the point
+// of origin of every tile matrix written in the axis order of the reference system (y first).
+func SynthYX(deepest int, px float64, ox, oy float64, tileWidth uint, corner tms20.CornerOfOrigin) tms20.TileMatrixSet {
+	t := Synth(deepest, px, ox, oy, tileWidth, corner)
+	t.ID = "synthetic-yx"
+	t.CRS = crsStubYX{}
+	t.OrderedAxes = []string{"Y", "X"}
+	for z, tm := range t.TileMatrices {
+		o := tms20.TwoDPoint{tm.PointOfOrigin[1], tm.PointOfOrigin[0]}
+		tm.PointOfOrigin = &o
+		t.TileMatrices[z] = tm
+	}
+	return t
+}
+
 // Synth builds a true quadtree set with ids 0..deepest whose internal pixel at
 // id `deepest` measures px; tileWidth must be a power of two.  The extent is
 // 16*tileWidth pixels of id 0 wide.
